@@ -14,7 +14,7 @@ F_R = ["rich/console.py:Console._render_buffer", "rich/style.py:Style.render", "
        "rich/color.py:Color.downgrade", "rich/color.py:Color.get_ansi_codes", "rich/segment.py:Segment.remove_color"]
 ATTRS = ["bold", "dim", "italic", "underline", "blink", "blink2", "reverse", "conceal", "strike", "underline2",
          "frame", "encircle", "overline"]
-COLORS = [None, Color.default(), Color.parse("red"), Color.parse("bright_blue"), Color.parse("color(100)"),
+COLORS = [None, Color.default(), Color.parse("red"), Color.parse("bright_blue"), Color.parse("bright_black"), Color.parse("color(100)"),
           Color.from_rgb(1, 2, 3), Color.from_rgb(128, 128, 128), Color("w", ColorType.WINDOWS, 5)]
 SYSTEMS = [None, "standard", "256", "truecolor", "windows"]
 _SYS = {"standard": ColorSystem.STANDARD, "256": ColorSystem.EIGHT_BIT, "truecolor": ColorSystem.TRUECOLOR,
